@@ -1,6 +1,7 @@
 """C17 — allocator discipline at the choke points (DESIGN.md section 3, C17)."""
 from vlib import Ob, run_all
 import C19
+import C14
 
 
 def obligations(tier):
@@ -36,6 +37,22 @@ def obligations(tier):
         if ob.name.startswith(("varr.", "htab.")):
             ob.name = "containers." + ob.name
             obs.append(ob)
+    # release of loaded data sections: the C14 section harness ends with the real remove_module / remove_item under the ledger
+    # allocator (every section block returned exactly once, nothing that is not a block handed to free); runs of >= 2 items
+    # with an unnamed follower, every item kind as follower
+    seen = set()
+    for ob in C14.obligations(tier):
+        if not ob.name.startswith("sections."):
+            continue
+        parts = ob.name.split(".", 2)[2].split("+")
+        followers = [p.split("_")[0].rstrip("0123456789") for p in parts[1:] if not p.startswith("N:")]
+        nrem = len([o for o in obs if o.name.startswith("removal.")])
+        for f in followers:
+            if (f not in seen and tier == "quick") or (tier != "quick" and nrem < 40):
+                seen.add(f)
+                ob.name = "removal." + ob.name
+                obs.append(ob)
+                break
     return obs
 
 
